@@ -40,6 +40,7 @@ type Violation struct {
 	Nondets []Nondet
 	Log     []LogEv
 	Replayed *bool
+	History string
 }
 
 // Run explores the paths of one harness function with one solver.
@@ -231,7 +232,7 @@ func (r *Run) onUncaughtPanic(st *State) {
 		res, m := r.model(st)
 		if res == smt.Sat {
 			r.Violations = append(r.Violations, Violation{Label: "panic", Msg: msg, Pos: pos, Model: m,
-				Nondets: append([]Nondet(nil), st.Nondets...), Log: st.Log, Stack: pos})
+				Nondets: append([]Nondet(nil), st.Nondets...), Log: st.Log, Stack: pos, History: st.History()})
 		} else if res == smt.Unknown {
 			r.UnknownObl++
 		} else {
